@@ -1,6 +1,7 @@
 From Coq Require Extraction.
 From Coq Require Import ExtrOcamlBasic.
-From Tickit Require Import Csi VT TermPenDefs TermPenSpec XtermDefs XtermModeSpec Gen_SgrOnOff.
+From Tickit Require Import Csi VT TermPenDefs TermPenSpec XtermDefs XtermModeSpec TermBufDefs TermBufSpec Gen_SgrOnOff.
 Extraction "mC12.ml" render lex vt_init vt_run_bytes xt_start empty_pen pset has_attr
   xdrv_new xt_on_modereport xt_on_decscusr xt_on_sgrreport xt_setctl xt_clear setup_controls
-  mode_step oracle_modes ms_of_vt sets_keypad_on set_md md_set_blink md_set_shape.
+  mode_step oracle_modes ms_of_vt sets_keypad_on set_md md_set_blink md_set_shape
+  bstep bterm_new oracle_buf bo_init.
